@@ -265,7 +265,7 @@ def judge_err(ctx, text, k, expected):
     """C13: every failure carries a valid position, known rule names and a message that renders (line:col via TLC)."""
     out = []
     if "names13" not in ctx:
-        ctx["names13"] = set(ctx["g"]) | set(_pest.Parser.BUILTIN) | {"SKIP"}
+        ctx["names13"] = set(ctx["g"]) | set(_pest.Parser.BUILTIN)  # the optimizer's synthetic SKIP rule is not a rule of the grammar
     for mode in ctx["modes"]:
         o = M.run_parse(_pest, ctx["parsers"][mode], ctx["rule"], text, k, keep=True)
         if o.get("ok") is not False:
